@@ -324,6 +324,7 @@ def run(tier, replay=None):
     run_dimension_flow(chk, F)
     run_pair_coefficients(chk, F)
     run_bar_order(chk, F)
+    run_transposed_u_undo(chk, F)
     chk.assumptions += ['clang 14 parser; template patterns', 'U is stored transposed for Z2: a column addition on R '
                         'is mirrored by add_to with exchanged indices or by one pushed entry']
     return chk
@@ -485,3 +486,62 @@ def run_bar_order(chk, F):
                   'the bar of highest birth only if the bars are sorted by birth alone' % keys)
     chk.ob('E9-bar-order', 'Base_pairing::_reduce sorts the bars by birth alone (what _remove_last\'s pop_back relies on)',
            '%s:%s' % (rel(f['file']), sorts[0].get('l')), ok, detail, key='E9|Base_pairing|bar-order')
+
+
+# ------------------------------------------------------------------ E2 removal undoes what the reduction wrote into U
+
+def run_transposed_u_undo(chk, F):
+    """E2: for Z_2 the factor U is stored transposed: reducing cell n by column j writes an entry of row n into the
+    *stored column j* (`mirrorMatrixU_.get_column(j).push_back(...)`), not into the stored column n. remove_last
+    therefore has to erase the entries of row n from the other stored columns before it drops the stored column n:
+    it contains a loop over the columns that zeroes (column, removed index) in U. Decided as a companion rule: the
+    obligation exists exactly when some function of RU_matrix writes into a stored column of U other than the one
+    it inserts."""
+    fns = [f for f in F.functions if f.get('clsname') == 'RU_matrix' and f.get('inst') in (0, 2) and
+           f.get('body') is not None]
+    if not fns:
+        raise AnalysisBroken('C05: RU_matrix not found')
+    writers = []
+    for f in fns:
+        for x in ir.walk(f['body']):
+            if ir.is_call(x) and ir.call_name(x) in ('push_back', 'emplace_back', 'insert') and \
+                    ir.call_receiver(x) is not None:
+                r = ir.show(ir.call_receiver(x))
+                if r.startswith('mirrorMatrixU_.get_column('):
+                    writers.append((f, x, r))
+    rl = [f for f in fns if f['name'] == 'remove_last']
+    if len(rl) != 1:
+        raise AnalysisBroken('C05: RU_matrix::remove_last not found')
+    rl = rl[0]
+    where = '%s:%d' % (rel(rl['file']), rl['line'])
+    if not writers:
+        chk.ob('E2-U-undo', 'RU_matrix writes into U only through column operations on the inserted column', where,
+               True, '', key='E2|RU_matrix::remove_last|U-undo', nontrivial=False)
+        return
+    removed = None
+    for x in ir.walk(rl['body']):
+        if ir.is_call(x) and ir.call_name(x) == '_remove_last_in_barcode' and ir.call_args(x):
+            removed = ir.show(ir.call_args(x)[0])
+    if removed is None:
+        raise AnalysisBroken('C05: the removed index of RU_matrix::remove_last was not identified')
+    ok = False
+    order_ok = False
+    seen_erase = False
+    for x in ir.walk(rl['body']):
+        if x.get('k') in ('ForStmt', 'WhileStmt', 'CXXForRangeStmt'):
+            for y in ir.walk(x.get('body')):
+                if ir.is_call(y) and ir.call_name(y) in ('zero_entry', 'clear') and 'mirrorMatrixU_' in ir.show(y) \
+                        and ir.call_args(y) and removed in ir.show(ir.call_args(y)[-1]):
+                    ok = True
+                    seen_erase = True
+        if ir.is_call(x) and ir.call_name(x) == 'remove_last' and 'mirrorMatrixU_' in ir.show(x):
+            order_ok = seen_erase
+    w = writers[0]
+    chk.ob('E2-U-undo', 'RU_matrix::remove_last erases the row of the removed cell from the stored columns of U '
+           '(written by %s, line %s)' % (w[0]['name'], w[1].get('l')), where, ok and order_ok,
+           '' if ok and order_ok else ('%s writes an entry of the reduced cell\'s row into %s, a stored column that '
+                                       'remove_last does not drop; remove_last has no loop zeroing (column, %s) in '
+                                       'mirrorMatrixU_%s: the entries survive the removal and a re-inserted cell '
+                                       'gets a second entry in the same row' %
+                                       (w[0]['name'], w[2], removed, '' if not ok else ' before the column is dropped')),
+           key='E2|RU_matrix::remove_last|U-undo')
